@@ -60,6 +60,25 @@ for _n, _f in (('gt', e_gt), ('ge', e_ge), ('lt', e_lt), ('le', e_le), ('eq', e_
     HANDLERS[getattr(aten, _n).Scalar] = HANDLERS[getattr(aten, _n).Tensor] = binop(_f, cmp=True)
 HANDLERS[aten.floor_divide.default] = binop(e_floordiv)
 HANDLERS[aten.remainder.Scalar] = HANDLERS[aten.remainder.Tensor] = binop(e_mod)
+
+
+def _e_rshift(a, b):
+    # arithmetic right shift of a (mathematical) integer by a concrete amount = floor division by 2^b
+    if is_sym(b):
+        raise EngineError("symbolic shift amount")
+    return e_floordiv(a, 2 ** int(b))
+
+
+def _e_lshift(a, b):
+    if is_sym(b):
+        raise EngineError("symbolic shift amount")
+    return e_mul(a, 2 ** int(b))
+
+
+for _ov in ('Tensor', 'Tensor_Scalar'):
+    if hasattr(aten.bitwise_right_shift, _ov):
+        HANDLERS[getattr(aten.bitwise_right_shift, _ov)] = binop(_e_rshift)
+        HANDLERS[getattr(aten.bitwise_left_shift, _ov)] = binop(_e_lshift)
 HANDLERS[aten.maximum.default] = binop(e_max)
 HANDLERS[aten.minimum.default] = binop(e_min)
 
